@@ -11,7 +11,7 @@
 //!   sleep_ms=<n>             sleep before replying
 //!
 //! Every invocation appends one line to `<argv0>.log` and saves what it read to `<argv0>.stdin`
-//! (`.stdin.<k>` for the k-th invocation, k >= 2).
+//! (`.stdin.<k>`, k >= 2, for further invocations; slots are claimed atomically, in no particular order).
 
 use std::io::{Read, Write};
 
@@ -96,12 +96,19 @@ fn main() {
             input = buf;
         }
     }
-    let stdin_path = if previous == 0 {
-        with_ext(".stdin")
-    } else {
-        with_ext(&format!(".stdin.{}", previous + 1))
-    };
-    let _ = std::fs::write(stdin_path, &input);
+    // slicec starts its generators in parallel: two invocations of the same generator may be alive
+    // at once, so the slot is claimed with an exclusive create (`.stdin`, `.stdin.2`, `.stdin.3`, ...)
+    let _ = previous;
+    for k in 1..64 {
+        let path = if k == 1 { with_ext(".stdin") } else { with_ext(&format!(".stdin.{k}")) };
+        match std::fs::OpenOptions::new().write(true).create_new(true).open(&path) {
+            Ok(mut f) => {
+                let _ = f.write_all(&input);
+                break;
+            }
+            Err(_) => continue,
+        }
+    }
 
     if sleep_ms > 0 {
         std::thread::sleep(std::time::Duration::from_millis(sleep_ms));
